@@ -64,6 +64,28 @@ def check_string(s, utils, errors):
     return vs
 
 
+JUNK = ["5521*x", "12a", "x", "1 2", "12.5", "-7", "0x12", "١٢٣", "", "12\n", "5521*"]
+
+
+def check_history(steps, utils, errors):
+    """A sequence of calls on the module-level functions, some with input outside the domain (which may raise or return anything):
+    every digit string in the sequence must still encode and decode exactly as it does alone."""
+    for k, st_ in enumerate(steps):
+        if st_["junk"] is not None:
+            for f in (utils.encode_to_tbcd, utils.decode_from_tbcd):
+                try:
+                    f(JUNK[st_["junk"] % len(JUNK)])
+                except (Exception,) + errors:
+                    pass
+            continue
+        vs = check_string(st_["s"], utils, errors)
+        if vs:
+            v = vs[0]
+            return [V(v.clause + " - also after calls that were refused", "history/" + v.sig,
+                      f"step {k} of {[(x['s'] if x['junk'] is None else 'JUNK:' + JUNK[x['junk'] % len(JUNK)]) for x in steps]}: {v.detail}")]
+    return []
+
+
 def check_avp(n, as_str, cls_name, errors):
     """MSISDN / STN-SR built from a number n (int, or its decimal string)."""
     common.bootstrap()
@@ -138,6 +160,8 @@ def run_case(case):
     errors = common.lib_errors()
     if case["kind"] == "string":
         return check_string(case["s"], utils, errors)
+    if case["kind"] == "history":
+        return check_history(case["steps"], utils, errors)
     if case["kind"] == "int":
         vs = []
         s = str(case["n"])
@@ -184,7 +208,9 @@ def main(ctx):
     digits = st.text(alphabet="0123456789", min_size=0, max_size=20)
     numbers = st.one_of(st.integers(0, 10**20 - 1),
                         st.integers(1, 20).flatmap(lambda k: st.integers(10**(k - 1), 10**k - 1)))
+    step = st.one_of(digits.map(lambda s: {"s": s, "junk": None}), st.integers(0, 50).map(lambda j: {"s": None, "junk": j}))
     cases = st.one_of(
+        st.lists(step, min_size=2, max_size=6).map(lambda steps: {"kind": "history", "steps": steps}),
         digits.map(lambda s: {"kind": "string", "s": s}),
         numbers.map(lambda n: {"kind": "int", "n": n}),
         st.builds(lambda n, a, c: {"kind": "avp", "n": n, "as_str": a, "cls": c},
@@ -193,12 +219,16 @@ def main(ctx):
 
     def body(case):
         vs = run_case(case)
+        if case["kind"] == "history":
+            mixed = any(x["junk"] is not None for x in case["steps"]) and any(x["junk"] is None for x in case["steps"])
+            col.record(case, vs, nontrivial=mixed, classes=["history"] + (["refused-call-then-digit-string"] if mixed else []))
+            return
         s = case["s"] if case["kind"] == "string" else str(case["n"])
         col.record(case, vs, nontrivial=(len(s) % 2 == 0 or len(s) != 13),
                    classes=[case["kind"], "even" if len(s) % 2 == 0 else "odd", f"rand-len={len(s)}"])
 
     common.hyp_collect(cases, body, n_rand, ctx.seed)
-    ctx.required_classes = ["string", "int", "avp", "even", "odd", "structured-long"]
+    ctx.required_classes = ["string", "int", "avp", "even", "odd", "structured-long", "refused-call-then-digit-string"]
     ctx.assumptions = ["digit strings only (the statement's domain); ints have no leading zero; "
                        "special TBCD characters (*, #, a-c) are outside the statement"]
 
